@@ -506,7 +506,11 @@ func genAccProgram(t *Tape, mutate bool) string {
 	default:
 		sb.WriteString(" if ($ is string) { w = w + $ }\n")
 	}
-	sb.WriteString(" print \"v\", n, $ is array, $ is object, $ is number\n")
+	if t.Chance(1, 4) {
+		sb.WriteString(" printf(\"v%v:\", n)\n")
+	} else {
+		sb.WriteString(" print \"v\", n, $ is array, $ is object, $ is number\n")
+	}
 	if mutate {
 		switch t.Weighted(3, 2, 2, 1) {
 		case 0:
@@ -529,8 +533,12 @@ func genAccProgram(t *Tape, mutate bool) string {
 	if t.Chance(1, 2) {
 		sb.WriteString("ENDFILE { print \"ef\", n }\n")
 	}
-	if t.Chance(2, 3) {
+	switch t.Weighted(4, 2, 1) {
+	case 0:
 		sb.WriteString("END { print \"end\", n, s, w }\n")
+	case 1:
+		// output that does not end in a newline: whatever follows (the -o - JSON) comes after it
+		sb.WriteString("END { printf(\"end %v %v;\", n, s) }\n")
 	}
 	return sb.String()
 }
